@@ -178,6 +178,36 @@ def stage_random(rep, props, *, label, flnames, histories, steps, seed, cfg, def
         rep.extra["random_histories"] = rep.extra.get("random_histories", 0) + histories
 
 
+def stage_suite(rep, props, *, label="suite"):
+    """code -> spec: the repository's own test-suite runs under the external recorder (harness/suite_recorder.py,
+    a pytest plugin that wraps the public mutating methods from outside); every outermost call becomes a step
+    record validated by TLC like any other."""
+    import os
+    import subprocess
+    repo = os.environ.get("VERIF_REPO", "/repo")
+    out = P.WORK / "traces" / f"suite-{os.getpid()}.ndjson"
+    out.parent.mkdir(parents=True, exist_ok=True)
+    for f in (out, out.with_suffix(".ndjson.stats")):
+        f.unlink(missing_ok=True)
+    env = dict(os.environ, MAR10_NUTREE_VERIF="1", NUTREE_SUITE_TRACE=str(out), PYTHONPATH=f"{repo}:{P.WORK.parent}",
+               PYTHONDONTWRITEBYTECODE="1")
+    r = subprocess.run(["/venv/bin/python", "-B", "-m", "pytest", "-p", "no:cacheprovider", "-p", "harness.suite_recorder",
+                        "-o", "addopts=", "-q", "-x", "--timeout=600"], cwd=repo, env=env, capture_output=True, text=True, timeout=900)
+    if not out.exists():
+        raise P.TLCError(f"{label}: the recorder produced no trace: {r.stdout[-400:]} {r.stderr[-400:]}")
+    recs = [json.loads(l) for l in out.read_text().splitlines() if l.strip()]
+    stats = json.loads(out.with_suffix(".ndjson.stats").read_text()) if out.with_suffix(".ndjson.stats").exists() else {}
+    for f in (out, out.with_suffix(".ndjson.stats")):
+        f.unlink(missing_ok=True)
+    for i, rec in enumerate(recs):
+        rec["id"] = 5_000_000 + i
+    mism, checked, wall = P.validate_records(recs, mk=3)
+    absorb(rep, recs, mism, props)
+    rep.stages.append({"stage": label, "suite_result": (r.stdout.strip().splitlines() or ["?"])[-1][:120], "steps_recorded": len(recs),
+                       "calls_not_translated": stats.get("skip")})
+    rep.extra["repository_test_steps_validated"] = len(recs)
+
+
 def _fault_job(args):
     from . import faults
     states, flname, base = args
@@ -281,6 +311,7 @@ def run(prop: str, tier: str) -> int:
     stage_random(rep, props, label="rnd:callback", flnames=["callback"], defdid="callback",
                  histories=60 if quick else 800, steps=40, seed=seed + 2,
                  cfg={"D": 4, "max_nodes": 12, "mk": 1})
+    stage_suite(rep, props)
     if prop == "C13":
         stage_faults(rep, props, label="faults<=3x2" if quick else "faults<=4x3", max_nodes=3 if quick else 4,
                      d=2 if quick else 3, flnames=["str", "keyed"])
